@@ -8,12 +8,15 @@ git diff -- src Cargo.toml > /tmp/confirm-$n.diff
 [ -s /tmp/confirm-$n.diff ] || { echo "no source change in $d"; exit 2; }
 demos=$(ls tests/ | grep -v '^integration.rs$' | sed 's/\.rs$//' | tr '\n' ' ')
 echo "== demos: $demos"
+find src tests -name "*.rs" -exec touch {} +
 echo "== (1) existing suite WITH change"
 cargo test --offline --lib --test integration </dev/null 2>&1 | grep -E "^test result|FAILED|error(\[|:)" | head
 echo "== (2) demo WITH change (expect FAIL)"
 for t in $demos; do cargo test --offline --test $t </dev/null 2>&1 | grep -E "^test result|error(\[|:)" | head -3; done
 echo "== (3) demo WITHOUT change (expect ok)"
 git stash push -q -- src Cargo.toml
+find src tests -name "*.rs" -exec touch {} +
 for t in $demos; do cargo test --offline --test $t </dev/null 2>&1 | grep -E "^test result|error(\[|:)" | head -3; done
 git stash pop -q
+find src tests -name "*.rs" -exec touch {} +
 git diff --stat -- src Cargo.toml | tail -1
